@@ -292,6 +292,23 @@ CompleteForUs(t, tyk, at) ==
                                                                               /\ t[a].ttl # 0 /\ at + 1000 < t[a].exp /\ at + 1000 < t[a].vexp
                                     /\ \E x \in Dom(t) : x[1] = "TXT" /\ x[2] = t[id].tk /\ t[x].forus /\ t[x].ttl # 0 /\ at + 1000 < t[x].exp}}
 
+(* C04, "in any order": the first TXT record ever heard for an instance arrives (for us, not empty) while everything   *)
+(* else that describes the instance is live: a ServiceResolved carrying it is on the channel by the end of the iteration *)
+(* (an instance is reported resolved without its TXT as soon as host and address are known; the TXT then completes it)    *)
+TxtCompletes(chOld, ch, tOld, tNew) ==
+  UNION {
+    LET c == ch[x] IN
+    IF c.kind = "browse" /\ c.bound /\ c.st = "started" /\ ~c.cacheonly /\ x \in Dom(chOld) /\ chOld[x].st = "started"
+    THEN UNION {V("C04.resolve-txt",
+                  \E j \in 1..Len(Ev.events) : /\ Ev.events[j].k = "ServiceResolved" /\ Ev.events[j].ch = x
+                                                /\ Ev.events[j].fnk = id[2] /\ Ev.events[j].txt = tNew[id].txtd,
+                  <<"the TXT record of an instance arrived after everything else (the instance was reported resolved without it): no ServiceResolved carries it", id[2]>>)
+                : id \in {i \in Dom(tNew) : /\ i[1] = "TXT" /\ tNew[i].at > lastT /\ tNew[i].forus /\ tNew[i].ttl # 0 /\ tNew[i].txtd # <<>>
+                                             /\ ~(\E o \in Dom(tOld) : o[1] = "TXT" /\ o[2] = i[2])
+                                             /\ ~(\E o2 \in Dom(tNew) : o2[1] = "TXT" /\ o2[2] = i[2] /\ o2 # i)
+                                             /\ i[2] \in CompleteForUs(tNew, c.key, T)}}
+    ELSE {} : x \in Dom(ch)}
+
 ParkInvariants(ch, t) ==
   UNION {
     LET c == ch[x] IN
@@ -705,7 +722,7 @@ Iter ==
        /\ lastT' = T
        /\ arrs' = SelectSeq(arrs \o NewArrivals(inbox), LAMBDA x : x > T)
        /\ viol' = Cap(viol, SpinV \cup s2.v \cup s3.v
-                    \cup (IF Ev.alive /\ ~s1.down THEN ParkInvariants(s2.chan, s1.tab) \cup SchedOwed(s1.sched, s3.used)
+                    \cup (IF Ev.alive /\ ~s1.down THEN ParkInvariants(s2.chan, s1.tab) \cup TxtCompletes(chan, s2.chan, tab, s1.tab) \cup SchedOwed(s1.sched, s3.used)
                                                        \cup MarksOwed(s1.tab, s3.tab, s2.chan)
                                                        \cup AskOwed(LackStep(lack, s3.tab, s2.chan, s3.fu), s3.fu)
                                                        \cup HostMarksOwed(s1.tab, s3.tab, s2.chan)
@@ -717,6 +734,10 @@ Iter ==
                     \cup V("C13.stopped-once", s2.owedStop = {}, <<"SearchStopped owed but not delivered in the iteration of the stop", s2.owedStop>>))
        /\ hits' = hits \cup {"ev." \o Ev.events[i].k : i \in 1..Len(Ev.events)} \cup s3.h
                        \cup (IF \E x \in Dom(s2.chan) : s2.chan[x].resolved # {} THEN {"C03.resolved"} ELSE {})
+                       \cup (IF \E x \in Dom(chan) : chan[x].kind = "browse" /\ chan[x].st = "started"
+                                  /\ \E i \in Dom(s1.tab) : /\ i[1] = "TXT" /\ s1.tab[i].at > lastT /\ s1.tab[i].forus /\ s1.tab[i].txtd # <<>>
+                                                            /\ i[2] \in chan[x].resolved /\ ~\E o \in Dom(tab) : o[1] = "TXT" /\ o[2] = i[2]
+                             THEN {"C04.resolve-txt"} ELSE {})
                        \cup (IF \E i \in Qpk : Len(Sent[i].m.an) > 0 THEN {"C10.known-answer"} ELSE {})
                        \cup (IF \E j \in 1..Len(Ev.replies) : Ev.replies[j].k = "metrics" THEN {"C20.metrics"} ELSE {})
                        \cup (IF "loop" \in DOMAIN Ev /\ Ev.loop /\ Ev.ntm > 0 THEN {"C12.loop-wake"} ELSE {})
